@@ -87,6 +87,19 @@ func main() {
 	for k := range ops {
 		k := k
 		one := func() []func() string { return bodies()[k : k+1] }
+		// count first; the per-point digest is only affordable for operations of moderate length
+		x0, err0 := vsched.Run(one(), nil, nil)
+		if err0 != nil {
+			fmt.Fprintln(os.Stderr, err0)
+			os.Exit(2)
+		}
+		if x0.Decisions > 6000 {
+			rep.PointsAlone = append(rep.PointsAlone, x0.Decisions)
+			if d := conc.SharedDigest(sh); d != base && rep.Failure == "" {
+				rep.Failure = "shared object written by " + rep.Ops[k]
+			}
+			continue
+		}
 		x, err := vsched.Run(one(), nil, func(step, running int) string {
 			if d := conc.SharedDigest(sh); d != base {
 				return "shared object written by " + rep.Ops[k]
